@@ -411,6 +411,24 @@ pub fn forwarders_contract(s: &mut dyn Src, r: &mut Report) {
    chk!(r, "forward_ref_is_empty", e == a.empty);
    chk!(r, "forward_ref_iter_all", via_all(&ra) == Some((1, Some(1 ^ 0x5a))));
    chk!(r, "forward_ref_contains_key", via_contains(&ra, k) == (k == 1));
+   #[cfg(not(kani))]
+   {
+      // the default data-structure provider hands out the very index it stores (ascent/src/rel.rs): identity views
+      use ascent::internal::ToRelIndex;
+      let mut t = ascent::rel::ToRelIndexType::<u8, u8>::default();
+      t.0.index_insert(k, v);
+      let p0: *const RelIndexType1<u8, u8> = &t.0;
+      let same_r = std::ptr::eq(ToRelIndex::<()>::to_rel_index(&t, &()), p0);
+      let same_w = std::ptr::eq(&*ToRelIndex::<()>::to_rel_index_write(&mut t, &mut ()), p0);
+      chk!(r, "to_rel_index_type_views_are_the_stored_index", same_r && same_w);
+      let mut x = RelIndexType1::<u8, u8>::default();
+      let px: *const RelIndexType1<u8, u8> = &x;
+      let ok1 = std::ptr::eq(ToRelIndex::<()>::to_rel_index(&x, &()), px) && std::ptr::eq(&*ToRelIndex::<()>::to_rel_index_write(&mut x, &mut ()), px);
+      let mut f = RelFullIndexType::<u8, u8>::default();
+      let pf: *const RelFullIndexType<u8, u8> = &f;
+      let ok2 = std::ptr::eq(ToRelIndex::<()>::to_rel_index(&f, &()), pf) && std::ptr::eq(&*ToRelIndex::<()>::to_rel_index_write(&mut f, &mut ()), pf);
+      chk!(r, "to_rel_index_of_plain_indices_is_identity", ok1 && ok2);
+   }
 }
 
 pub type Runner = fn(&mut dyn Src, &mut Report);
